@@ -18,7 +18,7 @@ import traceback
 from . import lib
 
 TRUSTED = [
-    "Coq 8.16.1 kernel; vm_compute only to evaluate the model on recorded traces and for the closed witness of lex_stack_refuted",
+    "Coq 8.16.1 kernel; vm_compute only to evaluate the model on recorded traces and for the closed Examples of the Witness module",
     "oracle hypotheses of Section Optimizer (Variable solve): solve_sound (an answer `Some m` satisfies every constraint of the query) and solve_complete (an answer `None` means no model satisfies the query); the brute-force solver of the harness satisfies both by construction",
     "hypotheses on the objective values: tval_range (a BV objective term of width w has an unsigned value in [0, 2^w)), width >= 1, MaxSMT goals have an integer term (integer weights)",
     "hand model models/Optimizer.v of optimizer.py (OptSearchInterval, _optimize, boxed/lexicographic/pareto drivers, SUA and incremental mixins) over IncrementalTrackingSolver's stack, tied by the trace correspondence of this run (counts in the evidence)",
@@ -944,7 +944,7 @@ def extra_wrap_specs(rnd, n):
 # ----------------------------------------------------------------------------
 
 CORPUS = [
-    # lexicographic success leaves the _setup level on the stack (minimal: one goal, no assertion)
+    # regression: lexicographic success used to leave the _setup level on the stack (fixed in c42afb5)
     {"vars": {"x": ["int", 0, 1]}, "assertions": [["le", ["i", 0], ["v", "x"]], ["le", ["v", "x"], ["i", 1]]], "pushes": [],
      "goals": [["min", ["v", "x"], False]], "driver": "lex", "strategy": "linear", "mode": "sua", "order_seed": 1},
     # signed BV: optimum is a negative value
